@@ -90,13 +90,15 @@ def main():
         if a.keep and ok:
             dst = os.path.join(VERIF, "seeded", name)
             os.makedirs(dst, exist_ok=True)
-            shutil.copy(patch, os.path.join(dst, "patch.diff"))
-            shutil.copy(demo, os.path.join(dst, "demo.py"))
+            if os.path.abspath(src) != os.path.abspath(dst):
+                shutil.copy(patch, os.path.join(dst, "patch.diff"))
+                shutil.copy(demo, os.path.join(dst, "demo.py"))
             meta = {}
             try:
                 meta = json.load(open(os.path.join(src, "meta.json")))
             except Exception:
                 pass
+            meta.pop("check_details", None)
             meta["property"] = a.id
             meta["confirmed_by"] = {
                 "tests_with_change": res["tests"], "demo_with_change_exit": res["demo_with_change"],
